@@ -363,6 +363,44 @@ func runC05(c *Ctx) {
 		c.Ob("C05-R4", "CopyHeader re-allocates every big-integer and byte-slice field of the header", c.FnPos(ch), len(missing) == 0, "shared with the original: "+strings.Join(missing, ", "))
 	})
 	c.Min("C05-R4", 1)
+
+	c.Rule("C05-R6", "who may store a balance by reference: the aliasing setters are reached only from code that hands them a fresh or recorded integer", func() {
+		// stateObject.setBalance / SetBalance store the pointer they are given. AddBalance/SubBalance hand them a fresh
+		// sum, undo methods the recorded previous value, CreateAccount the replaced object's balance, ApplyHardFork4 a
+		// constant zero (through StateDB.SetBalance). Any other caller stores the transaction's or the reward loop's
+		// scratch integer, which later arithmetic overwrites in place.
+		g := c.CG()
+		allowed := map[string]map[string]string{
+			"(*core/state.stateObject).setBalance": {"(*core/state.stateObject).SetBalance": "journalled setter", "(core/state.balanceChange).undo": "recorded previous value",
+				"(core/state.suicideChange).undo": "recorded previous value", "(*core/state.StateDB).CreateAccount": "balance of the replaced object carried over"},
+			"(*core/state.stateObject).SetBalance": {"(*core/state.stateObject).AddBalance": "fresh sum", "(*core/state.stateObject).SubBalance": "fresh difference",
+				"(*core/state.StateDB).SetBalance": "primitive wrapper (callers: hard fork 4 with a constant zero, tests)",
+				"(*aqua/accounts/abi/bind/backends.SimulatedBackend).callContract": "simulation of eth_call on a throw-away state: the caller gets the constant MaxBig256 (never on the consensus path)"},
+		}
+		for spec, al := range allowed {
+			fn := c.Fn(strings.Replace(strings.Replace(spec, "(*core/state.stateObject).", "core/state:(*stateObject).", 1), "(*core/state.StateDB).", "core/state:(*StateDB).", 1))
+			n := 0
+			for _, caller := range g.in[fn] {
+				if caller.Synthetic != "" {
+					continue
+				}
+				for _, e := range g.out[caller] {
+					if e.callee != fn || e.site == nil {
+						continue
+					}
+					n++
+					why, ok := al[shortFn(caller)]
+					c.Ob("C05-R6", shortFn(caller)+" may call "+shortFn(fn), c.Position(e.site.Pos()), ok, why)
+				}
+			}
+			c.Ob("C05-R6", "callers of "+shortFn(fn)+" found", c.FnPos(fn), n >= 3, fmt.Sprintf("%d", n))
+		}
+	})
+	c.Min("C05-R6", 8)
+
+	// "exactly the scheduled issuance": a credit that is never flushed burns coins. The dirty-tracking protocol that
+	// guarantees every modified account reaches the trie is C09-R5, shared here (its known finding F9 included)
+	c.Borrow("C09", runC09, map[string]string{"C09-R5": "C05-R5"})
 }
 
 func uniq(xs []string) []string {
